@@ -5,7 +5,7 @@ from ..harness import scn, gen, obs as O, pyeval
 from . import base_scn, compose
 
 pid = 'C09'
-gen_modules = ['tr_state', 'tr_validators', 'tr_has_patcher', 'tr_contracts', 'tr_objmodel']
+gen_modules = ['tr_state', 'tr_validators', 'tr_has_patcher', 'tr_contracts', 'tr_objmodel', 'tr_decorators']
 model_targets = ['Sem/ScnObj.v']
 hand_modelled = ['coq/Sem/ObjModel.v: attach / attach_has / _ensure_wrapped / update_wrapper / chain / foreign decorators on a heap of function '
                  'objects (hand-written; the source text of these functions is pinned by tools/py2coq/tr_objmodel.py)']
@@ -33,7 +33,10 @@ def monitor(sc, obs):
     out = []
     users = {}
     for f in sc['funs']:
-        for cid, _ in compose.applied(f)[0]: users.setdefault(cid, set()).add(json.dumps(f['sig']))
+        # the signature of the object a contract is attached to: behind a plain (non-wraps) foreign layer that is (*args, **kwargs)
+        app0, foreigns0, _ = compose.applied(f)
+        fp = min([l for kind, t, l in foreigns0 if kind == 'plain'], default=None)
+        for cid, l in app0: users.setdefault(cid, set()).add(json.dumps(f['sig']) if fp is None or l <= fp else 'STAR')
     for a, act in zip(sc['driver'], acts):
         f = funs[a[1]]; args = a[2]
         app, foreigns, nlayers = compose.applied(f)
